@@ -38,9 +38,6 @@ type MakeChannel struct {
 // Call the function with the arguments provided.
 func (f *MakeChannel) Call(s *slip.Scope, args slip.List, depth int) slip.Object {
 	slip.CheckArgCount(s, depth, f, args, 1, 1)
-	size, ok := args[0].(slip.Fixnum)
-	if !ok || int(size) < 0 {
-		slip.TypePanic(s, depth, "size", args[0], "non-negative fixnum")
-	}
-	return Channel(make(chan slip.Object, int(size)))
+	size := slip.CheckDimension(s, depth, "size", args[0])
+	return Channel(make(chan slip.Object, size))
 }
